@@ -1,9 +1,13 @@
 #!/bin/bash
-# run_seeded.sh <seeded-id> <property> [tier] : apply a seeded change to /repo, run the check, undo it.
+# run_seeded.sh <seeded-id> <property> [tier] : try a seeded change against a check, in a scratch COPY of /repo and the
+# harness under /tmp/seedrun/<id> (never touches /repo).  Prints one summary line; full log in /tmp/seedrun/<id>/<property>.log
 S=/verif/seeded/$1; PID=$2; TIER=${3:-quick}
-cd /repo && git diff --quiet || { echo "/repo has uncommitted changes"; exit 2; }
-git -C /repo apply "$S/patch.diff" || exit 2
-cd /verif && ./vcheck $PID --tier $TIER > /tmp/seeded_$1_$PID.log 2>&1; rc=$?
-git -C /repo checkout -- . 
-echo "$1 $PID tier=$TIER rc=$rc $(grep -c '^VIOLATION' /tmp/seeded_$1_$PID.log) violations; $(grep -m1 -A1 '^VIOLATION' /tmp/seeded_$1_$PID.log | tail -1)"
+ALT=/tmp/seedrun/$1
+mkdir -p $ALT/harness $ALT/evidence $ALT/replays $ALT/work
+rsync -a --delete --exclude target --exclude .git /repo/ $ALT/repo/
+rsync -a --delete --exclude 'target*' /verif/harness/ $ALT/harness/
+sed -i "s#/repo/#$ALT/repo/#g" $ALT/harness/Cargo.toml
+( cd $ALT/repo && patch -p1 -s < "$S/patch.diff" ) || { echo "$1 $PID PATCH FAILED"; exit 2; }
+cd /verif && VERIF_ALT=$ALT ./vcheck $PID --tier $TIER > $ALT/$PID.log 2>&1; rc=$?
+echo "$1 $PID tier=$TIER rc=$rc $(grep -c '^VIOLATION' $ALT/$PID.log) violations; $(grep -m1 -A1 '^VIOLATION' $ALT/$PID.log | tail -1) $(grep -m1 'TOOL-ERROR' $ALT/$PID.log | cut -c1-200)"
 exit $rc
